@@ -77,7 +77,7 @@ def run(res, tier, seed, replay):
         if not solvertie.ok(r):
             res.tie_break(f"whole-run correspondence no longer checks under completion order {r['stream']}: with the logged completion order "
                           f"of the encoder's futures as input, the model of Solver::solve (Cdcl/Solver.v) computes another result, another "
-                          f"sequence of trail events or another clause database than the implementation: {r['solver']}",
+                          f"sequence of trail events, another clause database or other provider calls (compared as multisets: every request exactly as often as in the model, i.e. once) than the implementation: {r['solver']}",
                           dict(ss.replay_obj(r), solver_model=r["solver"]))
     for r in erecs:
         if "enc" not in r:
